@@ -238,15 +238,23 @@ theorem C20_frame (sha : Content → Sum) (s : RState) (st : Step) (v : Nat) (hv
 
 /-! ## Plain http -/
 
-/-- **C20_http**: plain `http://` without `--insecure` is refused with 105 — whatever the
-cache holds, whatever the server would do, whatever is answered: the result does not depend
-on them and the cache is not touched (the check is made when the node is created, before
-any cache or network access).  (`flagsOk`: the command line passed `flags.Validate`.) -/
+/-- **C20_http**: plain `http://` without `--insecure` is refused — with 105 (with the
+remote-Taskfiles experiment switched off: with the generic exit code 1, like every remote
+Taskfile) — whatever the cache holds, whatever the server would do, whatever is answered:
+the result does not depend on them and the cache is not touched (the check is made when the
+node is created, before any cache or network access).  (`flagsOk`: the command line passed
+`flags.Validate`.) -/
 theorem C20_http (sha : Content → Sum) (s : RState) (st : Step)
     (hf : flagsOk st.flags = true) (hh : st.url.https = false) (hi : st.flags.insecure = false) :
-    invoke sha s st = (.error 105, s.tick st.dt) := by
+    invoke sha s st = (.error (if st.flags.experiment then 105 else 1), s.tick st.dt) := by
   apply invokeWith_gate
-  simp [gate, hf, hh, hi]
+  cases hx : st.flags.experiment <;> simp [gate, hf, hh, hi, hx]
+
+/-- without the experiment nothing remote is read at all -/
+theorem C20_experiment_off (sha : Content → Sum) (s : RState) (st : Step)
+    (hx : st.flags.experiment = false) : invoke sha s st = (.error 1, s.tick st.dt) := by
+  apply invokeWith_gate
+  cases hf : flagsOk st.flags <;> simp [gate, hf, hx]
 
 /-- … conversely 105 is given for nothing else -/
 theorem C20_http_only (sha : Content → Sum) (s : RState) (st : Step)
